@@ -75,6 +75,13 @@ type verifC06Snap struct {
 	opIndex    int
 }
 
+// verifC06Commit is the state at one Commit of the case.
+type verifC06Commit struct {
+	root  []byte
+	model verifC06Model
+	obs   []string
+}
+
 type verifC06OpFlags struct {
 	storage, sharedCode, createRemove bool
 }
@@ -92,6 +99,7 @@ type verifC06Env struct {
 	committed  verifC06Model
 	commitObs  []string
 	commitRoot []byte
+	commits    []verifC06Commit // every Commit of the case: root, model and observation (targets of rollback)
 	stack      []verifC06Snap
 	ops        []verifC06OpFlags
 	trace      []string
@@ -667,8 +675,46 @@ func (e *verifC06Env) opCommit() {
 		e.rt.Fatalf("fixture: Commit returned %x, RootHash says %x", root, r2)
 	}
 	e.commitObs, e.commitRoot = obs, r2
+	e.commits = append(e.commits, verifC06Commit{root: r2, model: e.model.clone(), obs: obs})
 	e.checkCodeEntries("commit")
 	e.checkLeavesAfterCommit(root)
+}
+
+// opRollback moves the accounts database to the root of an earlier Commit of the case with RecreateTrie, the way a
+// block rollback does (baseBootstrap.rollBackOneBlock -> blockProcessor.RevertStateToBlock(prevHeader) ->
+// accountsDB.RecreateTrie(prevHeader.GetRootHash()); storage bootstrap and the node API do the same with other
+// headers). The callers require nothing of the journal (RecreateTrie drops it together with the data-trie cache) and
+// go on processing on top of that state; RevertAccountState/RevertCurrentBlock later use RevertToSnapshot(0) to come
+// back to it. From here on that commit is "the last committed state". Every committed root of the case is still in
+// storage: the harness never calls PruneTrie.
+func (e *verifC06Env) opRollback() {
+	if len(e.commits) == 0 {
+		e.opCommit()
+		return
+	}
+	ci := rapid.IntRange(0, len(e.commits)-1).Draw(e.rt, "rollbackTo")
+	if len(e.commits) > 1 && rapid.IntRange(0, 3).Draw(e.rt, "rollbackOlder") != 0 {
+		ci = rapid.IntRange(0, len(e.commits)-2).Draw(e.rt, "rollbackToOlder") // a real rollback: not the newest commit
+	}
+	cm := e.commits[ci]
+	before := e.refCounts()
+	e.logf("rollback to commit#%d", ci)
+	e.fixture(e.f.Adb.RecreateTrie(cm.root), "RecreateTrie")
+	if ci == len(e.commits)-1 && bytes.Equal(cm.root, e.commitRoot) {
+		e.c.Class("op-rollback-to-current-commit")
+	} else {
+		e.c.Class("op-rollback-to-other-commit")
+	}
+	e.model = cm.model.clone()
+	e.committed = cm.model.clone()
+	e.commitObs, e.commitRoot = cm.obs, cm.root
+	e.stack = nil
+	e.ops = nil
+	e.opAddr = nil
+	e.held = map[int]*verifC06Held{}
+	e.removedSinceCommit = map[int]bool{}
+	e.classifyRefDrop(before, "rollback")
+	e.afterStep("rollback")
 }
 
 func (e *verifC06Env) opRevertZero() {
@@ -745,7 +791,7 @@ func verifC06Program(rt *rapid.T, c *kit.Case, mode string) {
 	steps := rapid.IntRange(1, 40).Draw(rt, "steps")
 	e.opSnapshot() // journal length 0 / the state at the start
 	for s := 0; s < steps; s++ {
-		switch op := rapid.IntRange(0, 24).Draw(rt, "op"); {
+		switch op := rapid.IntRange(0, 25).Draw(rt, "op"); {
 		case op < 14:
 			e.opMutateSave()
 		case op < 17:
@@ -756,6 +802,8 @@ func verifC06Program(rt *rapid.T, c *kit.Case, mode string) {
 			e.opRevert()
 		case op < 24:
 			e.opCommit()
+		case op < 25:
+			e.opRollback()
 		default:
 			e.opRevertZero()
 		}
@@ -775,7 +823,7 @@ func verifC06Program(rt *rapid.T, c *kit.Case, mode string) {
 
 func TestVerifC06_RevertRestoresObservation(t *testing.T) {
 	kit.Run(t, "C06", kit.Budget{Quick: 2000, Thorough: 40000},
-		"histories of <=40 steps over 3-6 accounts, 2-6 storage keys, 3 shared code blobs on a real AccountsDB (pruning-enabled storage manager, eviction waiting list size 1..100): load-or-reuse-held-instance, mutate, save (balance, nonce, owner, metadata, SetCode shared/nil/empty, storage writes and deletes; the instance of the previous save of an address is re-used half of the time, also after a partial journal revert), remove, snapshot (JournalLen), nested revert, commit, revert to 0; oracle = everything observable through GetExistingAccount/RetrieveValue/GetCode/RootHash recorded when the journal length was taken equals the observation after the revert; non-trivial = one revert undoes a storage write, a change of a code shared with another account and an account creation or removal together",
+		"histories of <=40 steps over 3-6 accounts, 2-6 storage keys, 3 shared code blobs on a real AccountsDB (pruning-enabled storage manager, eviction waiting list size 1..100): load-or-reuse-held-instance, mutate, save (balance, nonce, owner, metadata, SetCode shared/nil/empty, storage writes and deletes; the instance of the previous save of an address is re-used half of the time, also after a partial journal revert), remove, snapshot (JournalLen), nested revert, commit, rollback (RecreateTrie to the root of any earlier commit of the case, which becomes the last committed state), revert to 0; oracle = everything observable through GetExistingAccount/RetrieveValue/GetCode/RootHash recorded when the journal length was taken equals the observation after the revert; non-trivial = one revert undoes a storage write, a change of a code shared with another account and an account creation or removal together",
 		func(rt *rapid.T, c *kit.Case) { verifC06Program(rt, c, "C06") })
 }
 
